@@ -126,7 +126,6 @@ pub fn observe(schema: &dyn Runner, query: &str, op_name: Option<&str>, vars: &M
         Ok(None) => return Err("execute future parked without a waker".into()),
         Err(p) => return Err(format!("panic: {p}")),
     };
-    let Some(first) = resps.first() else { return Err("no response".into()) };
     let log = wd.take_log();
     let stage = if log.iter().any(|l| l == "V+") {
         Stage::Accepted
@@ -137,6 +136,9 @@ pub fn observe(schema: &dyn Runner, query: &str, op_name: Option<&str>, vars: &M
     } else {
         return Err(format!("no stage verdict recorded (log {log:?})"));
     };
+    // a subscription stream may end without a single response (observed for root fields inside a
+    // condition-less inline fragment); that is "no errors, no data"
+    let Some(first) = resps.first() else { return Ok(Observed { stage, errors: vec![], data: "<no response>".into(), resolvers: log.into_iter().filter(|l| l.starts_with("S:")).collect(), more_errors: 0 }) };
     Ok(Observed {
         stage,
         errors: first
